@@ -1,7 +1,7 @@
 (* kind "twr": replays the event trace of harness/twr_sched.c (twrrun) on the extracted
    interleaving model TwrModel.tw_step: same scheduler decisions, and the model must predict
    every wrapped call and its result.
-     jlsmodel twr                       stdin lines: <queue size> TAB <script line> TAB <twrrun result line>
+     jlsmodel twr [fx1]                 (fx1: repaired close protocol)  stdin lines: <queue size> TAB <script line> TAB <twrrun result line>
                                         -> "OK steps=<n> ..." | "MISMATCH ..." | "SKIP <why>"
      jlsmodel twr enum <size> <bound> <max>
                                         stdin: script lines; prints every schedule of the program with at most
@@ -18,6 +18,9 @@ let rec n_of_int_fast (i : int) : n =
 let int_of_n_fast (x : n) : int = match x with
   | N0 -> 0
   | Npos p -> let rec go p = match p with XH -> 1 | XO q -> 2 * go q | XI q -> 2 * go q + 1 in go p
+
+(* protocol variant of the model: "fx1" on the command line = repaired close (TwrModel fx = true) *)
+let fx = Array.exists (fun a -> a = "fx1") Sys.argv
 
 let dt_bits = function
   | "f32" | "u32" | "i32" -> 32 | "f64" | "u64" | "i64" -> 64 | "u1" -> 1 | "u4" | "i4" -> 4
@@ -152,7 +155,7 @@ let replay (size : int) (script : string) (result : string) : string =
             incr j
           done;
           let grp = List.rev !grp in
-          (match tw_step false !s (tid_of_int tid) with
+          (match tw_step fx !s (tid_of_int tid) with
            | None -> err := Some (Printf.sprintf "step %d (%s): the model says thread %d is blocked" !steps tk tid)
            | Some s' ->
              let evs = List.filter_map ev_string (new_events (!s).tw_trace s'.tw_trace) in
@@ -182,7 +185,7 @@ let replay (size : int) (script : string) (result : string) : string =
          let app = if app = "" then "-" else app in
          if s.tw_fault <> None then "MISMATCH model fault (out-of-bounds queue access)"
          else if st = "OK" && not (tw_final s) then "MISMATCH harness finished, model state not final"
-         else if st = "DEADLOCK" && not (tw_deadlocked false s) then "MISMATCH harness DEADLOCK, model not deadlocked"
+         else if st = "DEADLOCK" && not (tw_deadlocked fx s) then "MISMATCH harness DEADLOCK, model not deadlocked"
          else if acc <> field htoks "acc" then Printf.sprintf "MISMATCH accepted: harness %s model %s" (field htoks "acc") acc
          else if app <> field htoks "app" then Printf.sprintf "MISMATCH applied: harness %s model %s" (field htoks "app") app
          else if st = "OK" && List.length (tw_processed s) <> List.length (tw_acc_msgs s) then "MISMATCH model: processed <> accepted at the end"
@@ -224,7 +227,7 @@ let enum (size : int) (bound : int) (maxn : int) (script : string) : unit =
     let rec dfs (s : tw_state) (last : int) (used : int) (sched : string list) (depth : int) : unit =
       if !count >= maxn then () else
       if depth > 40000 then emit sched else
-      let en = List.filter (fun t -> tw_enabled false s (tid_of_int t)) tids in
+      let en = List.filter (fun t -> tw_enabled fx s (tid_of_int t)) tids in
       match en with
       | [] ->
         (match earliest_wake s with
@@ -238,7 +241,7 @@ let enum (size : int) (bound : int) (maxn : int) (script : string) : unit =
         List.iter (fun t ->
           let cost = if last_en && t <> last then 1 else 0 in
           if used + cost <= bound then
-            match tw_step false s (tid_of_int t) with
+            match tw_step fx s (tid_of_int t) with
             | Some s' -> dfs s' t (used + cost) (string_of_int t :: sched) (depth + 1)
             | None -> ()) order;
         (* starving the runnable threads while somebody sleeps: jump to its wake-up *)
@@ -252,8 +255,9 @@ let enum (size : int) (bound : int) (maxn : int) (script : string) : unit =
   | _ -> print_endline "#skip"
 
 let () = register "twr" (fun ic ->
-  if Array.length Sys.argv > 2 && Sys.argv.(2) = "enum" then begin
-    let size = int_of_string Sys.argv.(3) and bound = int_of_string Sys.argv.(4) and maxn = int_of_string Sys.argv.(5) in
+  let argv = Array.of_list (List.filter (fun a -> a <> "fx1") (Array.to_list Sys.argv)) in
+  if Array.length argv > 2 && argv.(2) = "enum" then begin
+    let size = int_of_string argv.(3) and bound = int_of_string argv.(4) and maxn = int_of_string argv.(5) in
     iter_lines ic (fun line -> enum size bound maxn line)
   end else
     iter_lines ic (fun line ->
